@@ -2,7 +2,9 @@
    (first sentence: dump = the network's view at every marker) and [C13_rob_ok] (second
    sentence: the three invariants on the dump).  Executable definitions only; std++ side.
 
-   INPUT  = kind ("sim" | "rob"); me user host real; #N nick-names..; #C channel-names..; items
+   INPUT  = kind ("sim" | "rob"); me user host real; #N nick-names..; #C channel-names..; [RG greet t|f]; items
+     RG (optional, first): the registration — the 001 greets the client as [greet] (may differ from
+     the configured nick [me]) and its text ends in greet!user@host iff "t"; absent = [me], "t"
      sim items:  CO n u h r | JO n c | PA n c msg | KI actor c victim msg | QU n msg | NI old new
                  | TO actor c topic | MO actor c #k (sign+letter arg)*k | RM c | RW c | RN n | MK
      rob items:  L raw-line | MK
@@ -20,7 +22,13 @@ Open Scope Z_scope.
 (* ---------- items ---------- *)
 Inductive item := IEv (e : event) | IMark | ILine (raw : bytes).
 
-Record c13case := { k_sim : bool; k_me : name; k_ui : uinfo; k_U : universe; k_items : list item }.
+(* [k_me] = the nick the client was CONFIGURED with; [k_greet] = the nick the server's 001 greets it
+   under (NICKLEN truncation, forced nick: may differ); [k_mask] = does the 001 text end in
+   nick!user@host.  After registration the client's own nick is the greeted one (handlers.go
+   h_001: "accept the server's opinion of what our nick actually is"), and it knows its host only
+   from the mask. *)
+Record c13case := { k_sim : bool; k_me : name; k_greet : name; k_mask : bool; k_ui : uinfo; k_U : universe;
+                    k_items : list item }.
 
 Definition nat_of (f : bytes) : option nat :=
   match GoBytes.N_of_dec f with Some n => Some (N.to_nat n) | None => None end.
@@ -102,10 +110,18 @@ Definition decode_C13 (i : list bytes) : option c13case :=
       | cc :: r2 =>
           kc ← nat_of cc;
           let cs := take kc r2 in
-          let rest := drop kc r2 in
+          let rest0 := drop kc r2 in
+          (* optional first item "RG greeted-nick t|f": the registration; default: greeted as configured, with mask *)
+          let reg := match rest0 with
+                     | o :: g :: m :: r' => if bool_decide (o = op2 82 71) then Some (g, bool_decide (m = [116%N]), r') else None
+                     | _ => None
+                     end in
+          let greet := match reg with Some x => fst (fst x) | None => me end in
+          let mask := match reg with Some x => snd (fst x) | None => true end in
+          let rest := match reg with Some x => snd x | None => rest0 end in
           its ← dec_items (length rest) sim rest;
           if Nat.eqb (length ns) kn && Nat.eqb (length cs) kc
-          then Some {| k_sim := sim; k_me := me; k_ui := Build_uinfo u h r;
+          then Some {| k_sim := sim; k_me := me; k_greet := greet; k_mask := mask; k_ui := Build_uinfo u h r;
                        k_U := Build_universe ns cs; k_items := its |}
           else None
       | [] => None
@@ -243,7 +259,11 @@ Definition feed (t : tstate) (ms : list LineSend.msg) : tstate := run_lines t (m
 
 (* ---------- running a case ---------- *)
 Definition attr_of (ui : uinfo) : nickattr := Build_nickattr (ui_user ui) (ui_host ui) (ui_real ui) no_nickmode.
-Definition case_net0 (k : c13case) : net := net0 (k_me k) (k_ui k) (attr_of (k_ui k)).
+(* the network after registration: the client is the user [k_greet]; what it knows about itself is
+   its configured ident and real name, and its host iff the 001 carried the mask *)
+Definition reg_attr (k : c13case) : nickattr :=
+  Build_nickattr (ui_user (k_ui k)) (if k_mask k then ui_host (k_ui k) else []) (ui_real (k_ui k)) no_nickmode.
+Definition case_net0 (k : c13case) : net := net0 (k_greet k) (k_ui k) (reg_attr k).
 
 Definition raw_out (t : tstate) (raw : bytes) : tstate * list bytes :=
   match Line.recv_one raw with
